@@ -27,28 +27,6 @@ CLAUSES = {1: "translator saw a null table with a non-zero count", 2: "member ty
 
 # ---------------------------------------------------------------- known findings: symptom signature + predicate on the input
 
-def strip_named_lists(text):
-    t = strip_comments(text)
-    t = re.sub(r"\b(ENUMERATED|INTEGER|BIT\s+STRING)\s*\{[^{}]*\}", r"\1", t)
-    return t
-
-
-def has_constrained_component(text):
-    """a constraint on a component of a SEQUENCE/SET/CHOICE or on the element of an OF (not only on a type assignment's own right-hand side)"""
-    t = strip_named_lists(text)
-    t = re.sub(r"\bDEFAULT\s+\{[^{}]*\}", "DEFAULT x", t)
-    t = re.sub(r"\[[^\]]*\]", "", t)        # tags
-    depth = 0
-    for i, ch in enumerate(t):
-        if ch == "{":
-            depth += 1
-        elif ch == "}":
-            depth -= 1
-        elif ch == "(" and depth >= 1:
-            return True
-    return bool(re.search(r"\bOF\s+[\w-]+(\s+[\w-]+)*\s*\(", t))
-
-
 OF_SIZE_INNER = re.compile(r"\bOF\s+(?:[a-z][\w-]*\s+)?(?:\[[^\]]*\]\s*(?:IMPLICIT\s+|EXPLICIT\s+)?)?(?:SEQUENCE|SET)\s*\(\s*SIZE\b")
 
 
@@ -72,10 +50,6 @@ def has_empty_set(text):
     return bool(re.search(r"\bSET\s*\{\s*(\.\.\.\s*)?\}", strip_comments(text)))
 
 
-def no_type_assignments(text):
-    return not re.search(r"(?m)^\s*[A-Z][\w-]*\s*(\{[^}]*\}\s*)?::=", re.sub(r"^.*?\bBEGIN\b", "", strip_comments(text), flags=re.S))
-
-
 def bound_exceeds_long(text):
     """a constraint bound written as a literal outside [-2^63, 2^63-1]"""
     for m in re.finditer(r"[(.|]\s*(-?\d{19,})\b", strip_comments(text)):
@@ -83,26 +57,6 @@ def bound_exceeds_long(text):
         if v > 2**63 - 1 or v < -2**63:
             return True
     return False
-
-
-def choice_refs(text):
-    """names of the type assignments that are an unconstrained (possibly tagged) reference to a CHOICE type, directly or through such references"""
-    defs = dict(parse_defs(text))
-    out = set()
-    for n in defs:
-        x, seen = n, set()
-        while x in defs and x not in seen:
-            seen.add(x)
-            rhs = defs[x].strip()
-            if re.match(r"CHOICE\s*\{", rhs):
-                if x != n:
-                    out.add(n)
-                break
-            m = re.match(r"(?:\[[^\]]*\]\s*(?:IMPLICIT\s+|EXPLICIT\s+)?)?([A-Z][\w-]*)$", rhs)
-            if not m:
-                break
-            x = m.group(1)
-    return out
 
 
 def diagnostics(stderr):
@@ -164,15 +118,6 @@ def tag_exceeds_30_bits(text):
     return any(int(n) >= 2**30 for n in re.findall(r"\[\s*(?:UNIVERSAL|APPLICATION|PRIVATE|CONTEXT)?\s*(\d+)\s*\]", strip_comments(text)))
 
 
-def negative_default(text):
-    """INTEGER/ENUMERATED component with a negative DEFAULT: a literal, or the name of an item / named number / value whose number is negative"""
-    t = strip_comments(text)
-    if re.search(r"\bDEFAULT\s+-\s*\d", t):
-        return True
-    neg = set(re.findall(r"([a-z][\w-]*)\s*\(\s*-\s*\d+\s*\)", t)) | set(re.findall(r"(?m)^\s*([a-z][\w-]*)\s+INTEGER\s*::=\s*-\s*\d", t))
-    return any(d in neg for d in re.findall(r"\bDEFAULT\s+([a-z][\w-]*)", t))
-
-
 def match_finding(stage, job):
     """-> finding id or None.  Each rule = symptom signature (the site) AND a predicate on (module text, options)."""
     text, opts = job["mod"]["text"], job["opts"]
@@ -181,26 +126,14 @@ def match_finding(stage, job):
     if stage == "signal":
         if "asn1p_parse: Assertion `!TQ_FIRST" in err and has_of_with_sized_of_element(text):
             return "C10-of-of-size-assert"
-        if "_range_overlap: Assertion" in err and reversed_range(text):
-            return "C10-reversed-range-assert"
         if job["rc"] == -11 and left_recursive_choice(text):
             return "C11-leftrec-crash"
-    if stage == "silent":
-        if no_type_assignments(text):
-            return "C10-silent-exit-no-types"
     if stage in ("build", "cxx"):
-        if re.search(r"asn_(OER|PER)_memb_\w+_constr_\d+. undeclared", blog) and "-fno-constraints" in opts \
-           and not ("-no-gen-PER" in opts and "-no-gen-OER" in opts) and has_constrained_component(text):
-            return "C10-noconstraints-member-codec-tables"
         if re.search(r"asn_DEF_Member_\d+. undeclared", blog) and has_of_unsigned_integer(text):
             return "C10-of-unsigned-element"
         if re.search(r"expected specifier-qualifier-list before .typedef.|invalid use of undefined type .struct \w*Member\w*", blog) \
            and "-fcompound-names" in opts and nested_anon_of(text):
             return "C10-nested-anonymous-of-struct"
-        if re.search(r"before .-. token|asn_DFL_\d+_(cmp|set)_. undeclared", blog) and negative_default(text):
-            return "C10-negative-integer-default"
-        if re.search(r"missing terminating|expected .* before|has no member named|does not name a type", blog) and re.search(r'DEFAULT\s+"[^"\n]*\*/', text):
-            return "C10-default-string-breaks-comment"
         if re.search(r"unknown type name|does not name a type", blog) and param_nested(text):
             return "C10-param-circular-include"
         if re.search(r"empty enum is invalid|asn_MAP_\w+_tag2el_\d+. undeclared", blog) and has_empty_set(text):
@@ -209,10 +142,6 @@ def match_finding(stage, job):
         if bound_exceeds_long(text) or tag_exceeds_30_bits(text):
             return "C10-constant-exceeds-c-type"
     if stage == "descr":
-        bad = job["failing_descrs"]       # [(clause, kind, name, term)]
-        if bad and all(c == 7 and k == "KChoice" and n in choice_refs(text) and re.search(r"\] None (None|\(Some \(mkO [^)]*\)\)\)) \(SChoice", t) for c, k, n, t in bad) \
-           and "-no-gen-PER" not in opts:
-            return "C10-choice-ref-no-per"
         if set(job["failing_clauses"]) <= {4, 6} and bound_exceeds_long(text):
             return "C10-constant-exceeds-c-type"
     return None
